@@ -357,6 +357,8 @@ class Harness(cm.BaseA):
         d = tempfile.mkdtemp(prefix="c03-", dir=run_tmp())
         try:
             path = os.path.join(d, "abort.gwl")
+            with open(path, "wb") as f:  # a longer file of an earlier run is already there
+                f.write(b"A;P;;;1;;150.00;;;;\r\nD;Q;;;1;;150.00;;;;\r\nW1;\r\n" * 60)
             ws = config["worklists"]["w"]
             W2 = {"lw": {s["name"]: build_labware(s) for s in config["labware"]}, "wl": {}}
             raised = None
